@@ -237,28 +237,63 @@ Proof.
   destruct r; simpl; rewrite andb_false_r; reflexivity.
 Qed.
 
-Lemma combined_fold_ok : forall r a, legal_ident a = true -> Forall (fun y => legal_ident y = true) r ->
-  exists o, fold_left (fun acc y => match acc with Ok a => fmt_ident (join2 a y) | e => e end) r (Ok a) = Ok o /\ legal_ident o = true.
+(* '#' is not an identifier character, so a legal (non-raw) identifier has no `r#` prefix to lose *)
+Lemma strip_raw_legal : forall l, legal_ident l = true -> strip_raw l = l.
+Proof.
+  intros l H. pose proof (shape_all_ic _ (legal_shape _ H)) as A. destruct l as [|r [|h rest]]; try reflexivity.
+  unfold strip_raw. destruct (Ascii.eqb r "r"%char && Ascii.eqb h "#"%char) eqn:E; [|reflexivity].
+  apply andb_prop in E. destruct E as [_ E]. apply Ascii.eqb_eq in E. subst h.
+  unfold all_ic in A. simpl in A. rewrite andb_false_r in A. discriminate.
+Qed.
+
+Lemma legal_ident_input : forall l, legal_ident l = true -> legal_input l = true.
+Proof. intros l H. unfold legal_input. rewrite (strip_raw_legal _ H). exact H. Qed.
+
+Lemma combined_fold_ok : forall r a, legal_ident a = true -> Forall (fun y => legal_input y = true) r ->
+  exists o, fold_left (fun acc y => match acc with Ok a => fmt_ident (join2 (strip_raw a) (strip_raw y)) | e => e end) r (Ok a) = Ok o
+            /\ legal_ident o = true.
 Proof.
   induction r as [|y r IH]; intros a Ha F; simpl.
   - exists a. auto.
-  - inversion F; subst. pose proof (join2_legal a y Ha H1) as L. unfold fmt_ident at 2. rewrite (legal_shape _ L). apply IH; auto.
+  - inversion F; subst. rewrite (strip_raw_legal _ Ha).
+    pose proof (join2_legal a (strip_raw y) Ha H1) as L. unfold fmt_ident at 2. rewrite (legal_shape _ L). apply IH; auto.
 Qed.
 
-Theorem combined_ident_total : forall ids, ids <> [] -> Forall (fun y => legal_ident y = true) ids ->
-  exists o, combined_ident ids = Ok o /\ legal_ident o = true.
+(* totality over the whole identifier language, raw identifiers included: never a panic, never the internal error *)
+Theorem combined_ident_total : forall ids, ids <> [] -> Forall (fun y => legal_input y = true) ids ->
+  exists o, combined_ident ids = Ok o /\ legal_input o = true.
 Proof.
-  intros [|x r] N F; [congruence|]. inversion F; subst. unfold combined_ident. apply combined_fold_ok; auto.
+  intros [|x [|y r]] N F; [congruence| |].
+  - inversion F; subst. exists x. split; [reflexivity|assumption].
+  - inversion F as [|? ? Hx F']; subst. inversion F' as [|? ? Hy F'']; subst.
+    unfold combined_ident. cbn [fold_left].
+    pose proof (join2_legal (strip_raw x) (strip_raw y) Hx Hy) as L. unfold fmt_ident at 2. rewrite (legal_shape _ L).
+    destruct (combined_fold_ok r _ L F'') as [o [E Lo]]. exists o. split; [exact E|apply legal_ident_input; exact Lo].
+Qed.
+
+(* two or more identifiers always give a non-raw identifier *)
+Theorem combined_ident_plain : forall x y r, Forall (fun y => legal_input y = true) (x :: y :: r) ->
+  exists o, combined_ident (x :: y :: r) = Ok o /\ legal_ident o = true.
+Proof.
+  intros x y r F. inversion F as [|? ? Hx F']; subst. inversion F' as [|? ? Hy F'']; subst.
+  unfold combined_ident. cbn [fold_left].
+  pose proof (join2_legal (strip_raw x) (strip_raw y) Hx Hy) as L. unfold fmt_ident at 2. rewrite (legal_shape _ L).
+  exact (combined_fold_ok r _ L F'').
 Qed.
 
 (* the only way to the "Internal Error" abort of combined_ident is the empty container *)
-Theorem combined_ident_internal_error_iff_empty : forall ids, Forall (fun y => legal_ident y = true) ids ->
+Theorem combined_ident_internal_error_iff_empty : forall ids, Forall (fun y => legal_input y = true) ids ->
   (combined_ident ids = InternalError <-> ids = []).
 Proof.
   intros ids F. split.
   - intro E. destruct ids as [|x r]; [reflexivity|]. destruct (combined_ident_total (x :: r) ltac:(discriminate) F) as [o [E' _]]. congruence.
   - intros ->. reflexivity.
 Qed.
+
+(* the code before the fix panicked on a raw identifier in any position but the first *)
+Theorem combined_ident_old_panics_on_raw :
+  exists ids, Forall (fun y => legal_input y = true) ids /\ combined_ident_old ids = Panic /\ exists o, combined_ident ids = Ok o.
+Proof. exists [s2l "a"; s2l "r#type"]. split; [repeat constructor|]. split; [reflexivity|]. eexists. reflexivity. Qed.
 
 (* flattening a destructuring pattern into one field name is not injective either *)
 Theorem combined_ident_injective_refuted :
@@ -271,6 +306,8 @@ Proof.
 Qed.
 
 Example combined_ident_ex : combined_ident_s ["a"; "b"; "__"]%string = Some "a_b___"%string. Proof. reflexivity. Qed.
+Example combined_ident_raw_ex : combined_ident_s ["r#type"; "r#match"; "c"]%string = Some "type_match_c"%string
+                                /\ combined_ident_s ["r#type"]%string = Some "r#type"%string. Proof. split; reflexivity. Qed.
 
 (* ---------- no duplicate enum variants for lower_snake_case method names ---------- *)
 Theorem script_variants_nodup : forall names, Forall (fun n => snake_class n = true) names -> NoDup names ->
